@@ -15,6 +15,7 @@
 from .worker import Worker, WorkerType, WorkerTerminatedError
 
 import os
+import time
 import queue
 import logging
 import threading
@@ -30,6 +31,7 @@ class ProcessWorker(Worker):
         self._comms = Pipe()
         self._ctrl_comms = Pipe()
         self._is_child = False
+        self._early_msg = None # final message of the child, if it had to be received before the child exited
         super().__init__(*args, **kwargs)
         assert not self.is_child
         self._comms.child_end.close()
@@ -73,7 +75,15 @@ class ProcessWorker(Worker):
             raise ValueError('A worker cannot wait for itself')
         if not self.is_alive():
             return True
-        self._child.join(timeout)
+        # a result which does not fit into the pipe's buffer blocks the child until somebody reads it:
+        # receive it while waiting, within the same overall timeout
+        deadline = None if timeout is None else time.monotonic() + timeout
+        try:
+            if self._early_msg is None and self._comms.parent_end.poll(timeout):
+                self._early_msg = self._comms.parent_end.get()
+        except Exception:
+            pass
+        self._child.join(None if deadline is None else max(0, deadline - time.monotonic()))
         alive = self._child.is_alive()
         if not alive:
             self._dead = True
@@ -128,6 +138,7 @@ class ProcessWorker(Worker):
         if self._result is None:
             #assert not self._comms[0].empty()
             #self._comms.child_end.close()
+            self._result = self._early_msg
             while True:
                 try:
                     self._result = self._comms.parent_end.get()
